@@ -112,6 +112,22 @@ def perturbations(spec0, steps):
                 if not ('null' in a2 and a2['null'] is False and
                         m3[4] is None):
                     yield repl(m3, 'attr-value')
+        if kind == 'ChangeMeta':
+            # the first multi-field entry with its fields in another order
+            # (the order of the columns of an index or of a together-group
+            # is part of the definition)
+            val = S.clone(mj[3])
+            done = False
+            for ent in val or []:
+                flds = ent.get('fields') if isinstance(ent, dict) else ent
+                if isinstance(flds, list) and len(flds) > 1:
+                    flds.reverse()
+                    done = True
+                    break
+            if done:
+                m2 = list(mj)
+                m2[3] = val
+                yield repl(m2, 'meta-fields-permuted')
         if kind == 'DeleteField':
             m = S.get_model(spec0, label, mj[1])
             if m:
